@@ -1,0 +1,47 @@
+//go:build verif
+
+package verifhook
+
+import "sync"
+
+var (
+	mu      sync.RWMutex
+	pointFn func(string)
+	faultFn func(string) error
+)
+
+// SetPoint installs the callback run at every Point (nil removes it).
+func SetPoint(f func(string)) {
+	mu.Lock()
+	pointFn = f
+	mu.Unlock()
+}
+
+// SetFault installs the callback consulted at every Fault (nil removes it).
+func SetFault(f func(string) error) {
+	mu.Lock()
+	faultFn = f
+	mu.Unlock()
+}
+
+// Point marks a named point of a code path: the installed callback may block
+// (schedule control), record, or exit the process (crash point).
+func Point(name string) {
+	mu.RLock()
+	f := pointFn
+	mu.RUnlock()
+	if f != nil {
+		f(name)
+	}
+}
+
+// Fault returns the error the installed callback wants to inject at a named point.
+func Fault(name string) error {
+	mu.RLock()
+	f := faultFn
+	mu.RUnlock()
+	if f != nil {
+		return f(name)
+	}
+	return nil
+}
